@@ -16,6 +16,10 @@ checks = {
    text="Seeded deterministic simulation of 2-4 client tasks on one CopyOnWriteMap (3 keys, unique written values), interleaved at the entry of load()/copyOnWrite(), inside the lock, before the snapshot store, and inside stalled user callbacks (tasks then really block on the library mutex; detected from the Go runtime's wait reason). The recorded invoke/return history (stamps = scheduler step numbers, intervals only ever widened) is checked with porcupine against a sequential map specification that also pins what UpdatedWith's remap observed; any panic inside an operation is a violation; ComputeIfAbsent-only keys are cross-checked directly. Sampling of interleavings and histories, not proof.",
    note="Trusted: sync.Mutex, sync/atomic.Value, porcupine's Illegal verdict (Unknown is counted, never reported). Interleavings inside one Go map copy are not explored (no yield point there).",
    technique="deterministic simulation: seeded scheduler over hook points + stalled-callback faults, linearizability of the recorded history (porcupine) against a sequential model"),
+ "C06": dict(cat="exploration", design="DESIGN.md §4 C06",
+   text="Seeded deterministic simulation of random future-combinator expression trees (Map/FlatMap/Flatten/Map2/Zip/Zip3/Ap/ApFunc/LiftA*/LiftM*/Flap*/Method*/FlatMethod*/Compose*/With/Sequence*/Traverse*/FlatMapTraverse*/FoldFuture/Transform*/Recover*/Or/OrFuture/Failed/Replace/MapSeqLift, Chain2-3 and Applicative2-3 builders with every Ap* variant, Apply/Apply2/Func*/Unit* leaves with failing and panicking bodies) over source promises completed in seeded phases (before the build, during, after, never), per-node executors, every atomic step a scheduling point. After every scheduler step every built node that is complete must equal a hand-written three-valued (Pending/Success/Failure) left-to-right reference evaluation over the currently completed sources (never early, right value, stable); at every quiescence complete <=> reference not Pending (always completes, also for Apply bodies that panic); root observers fire exactly once. Sampling, not proof.",
+   note="Trusted: the harness's reference interpreter (independent of the try package), executors never drop a runnable, user functions other than Apply bodies do not panic. Await/promise.WithTimeout (real timers) are outside the statement. Arities above 4 (LiftA5..9, Chain4..9) are not generated.",
+   technique="deterministic simulation: seeded scheduler + phased source completion + fault plan on Apply bodies/sources, step invariant against a three-valued reference model"),
 }
 
 na = {
